@@ -544,6 +544,9 @@ class LocalConcurrences:
                                     rb, re, cb, ce, self._c_settings)
         else:
             slice = self._wp[rb:re, cb:ce]
+            if positivize:
+                # Do not change the signs in the matrix itself, they mark the cells used by matches
+                slice = slice.copy()
         if positivize:
             neg_idx = slice < 0
             slice[neg_idx] = -slice[neg_idx]
